@@ -45,13 +45,16 @@ let run_line (line : string) : unit =
         update case name (fun l -> fst (srv_step hash_eqb h2 l (ReqDiff (root, recs))))
       | _ -> ()) entries;
     dump case n
+  | _ :: case :: "req" :: n :: "skip" :: _ -> dump case n
   | _ :: case :: "req" :: n :: "patch" :: rest ->
     let get k = match kv rest k with Some v -> v | None -> "" in
     let name = get "log" in
     let root = string_of_hex (List.hd (String.split_on_char '/' (get "proof"))) in
     let recs = List.map mk (split_on ';' (get "patch")) in
     let c = get "commit" in
+    let zero = String.make 32 '\000' in
     if c <> "-" then update case name (fun l -> fst (srv_step hash_eqb h2 l (ReqPatch (string_of_hex c, root, recs))))
+    else if name = "files" && root = zero then update case name (fun l -> fst (srv_step hash_eqb h2 l (ReqInit (root, recs))))
     else update case name (fun l -> fst (srv_step hash_eqb h2 l (ReqDiff (root, recs))));
     dump case n
   | _ :: case :: _ -> Printf.printf "%s unmodelled\n" case
